@@ -20,7 +20,8 @@ type Graph struct {
 	mu       sync.Mutex
 	cond     *sync.Cond
 	nodes    map[string]*gnode
-	frontier []fitem
+	frontier [][]fitem // bucket per node depth: shallow targets first, so that the greedy tail of an execution runs into unexplored territory
+	nfront   int
 	inflight int
 	booted   bool
 	stop     bool
@@ -54,6 +55,7 @@ type gnode struct {
 
 type gact struct {
 	a         Action
+	succ      *gnode // node reached the last time this action was executed
 	claimed   bool
 	done      bool
 	tries     int
@@ -69,6 +71,46 @@ type fitem struct {
 type pstep struct {
 	node string
 	act  int
+}
+
+func (g *Graph) push(it fitem) {
+	d := it.n.depth
+	for len(g.frontier) <= d {
+		g.frontier = append(g.frontier, nil)
+	}
+	g.frontier[d] = append(g.frontier[d], it)
+	g.nfront++
+}
+
+// pop returns the shallowest queued item.
+func (g *Graph) pop() (fitem, bool) {
+	for d := range g.frontier {
+		b := g.frontier[d]
+		if n := len(b); n > 0 {
+			it := b[n-1]
+			g.frontier[d] = b[:n-1]
+			g.nfront--
+			return it, true
+		}
+	}
+	return fitem{}, false
+}
+
+// hasOpen reports whether n or a known descendant within depth levels has an action that is neither done nor claimed.
+func hasOpen(n *gnode, depth int) bool {
+	for i := range n.acts {
+		if a := &n.acts[i]; !a.done && !a.claimed {
+			return true
+		}
+	}
+	if depth > 0 {
+		for i := range n.acts {
+			if s := n.acts[i].succ; s != nil && hasOpen(s, depth-1) {
+				return true
+			}
+		}
+	}
+	return false
 }
 
 // Nodes returns the number of distinct nodes reached.
@@ -134,9 +176,8 @@ func (g *Graph) pick() ([]pstep, *fitem, bool) {
 			g.cond.Broadcast()
 			return nil, nil, false
 		}
-		for len(g.frontier) > 0 {
-			it := g.frontier[len(g.frontier)-1]
-			g.frontier = g.frontier[:len(g.frontier)-1]
+		for g.nfront > 0 {
+			it, _ := g.pop()
 			a := &it.n.acts[it.i]
 			if a.done || a.claimed {
 				continue
@@ -173,7 +214,7 @@ func (g *Graph) runOne(path []pstep, target *fitem, sem chan struct{}) {
 	if c.claim != nil { // never executed (diverged after claiming greedily, or the execution was cut short)
 		a := &c.claim.n.acts[c.claim.i]
 		a.claimed = false
-		g.frontier = append(g.frontier, *c.claim)
+		g.push(*c.claim)
 		c.claim = nil
 	}
 	g.Executions++
@@ -257,7 +298,7 @@ func (c *expChooser) Choose(node string, acts []Action) int {
 		g.nodes[node] = n
 		g.Edges += len(acts)
 		for i := len(acts) - 1; i >= 0; i-- {
-			g.frontier = append(g.frontier, fitem{n, i})
+			g.push(fitem{n, i})
 		}
 		if len(acts) == 0 {
 			g.Terminals++
@@ -276,6 +317,9 @@ func (c *expChooser) Choose(node string, acts []Action) int {
 		if c.prev != nil && cost < n.cost {
 			n.parent, n.pact, n.cost, n.depth = c.prev, c.prevAct, cost, depth
 		}
+	}
+	if c.prev != nil {
+		c.prev.acts[c.prevAct].succ = n
 	}
 	c.cur = n
 	if len(acts) == 0 {
@@ -299,7 +343,7 @@ func (c *expChooser) Choose(node string, acts []Action) int {
 				g.EdgesDone++ // counted as settled, but GaveUp forbids the claim of completeness
 				g.GaveUp++
 			} else if !a.done {
-				g.frontier = append(g.frontier, *c.claim)
+				g.push(*c.claim)
 			}
 			c.claim = nil
 		}
@@ -315,8 +359,16 @@ func (c *expChooser) Choose(node string, acts []Action) int {
 			return i
 		}
 	}
-	// nothing new here: move on (rotating through the actions) towards nodes that may still have unexplored actions
+	// nothing new here: move on towards a known successor that still has unexplored actions nearby, else rotate
 	c.rot++
+	for d := 0; d <= 2; d++ {
+		for k := range n.acts {
+			i := (k + c.rot) % len(n.acts)
+			if s := n.acts[i].succ; s != nil && hasOpen(s, d) {
+				return i
+			}
+		}
+	}
 	return c.rot % len(n.acts)
 }
 
@@ -364,7 +416,7 @@ func (c *expChooser) Observe(node string, act Action, outcome string, nondet boo
 			g.EdgesDone++
 			g.BothSettled1++
 		default:
-			g.frontier = append(g.frontier, fitem{n, idx})
+			g.push(fitem{n, idx})
 		}
 	}
 	c.prev, c.prevAct, c.prevND = n, idx, nondet
